@@ -57,7 +57,21 @@ func genC14(seed int64, tier string, emit func(run.Case)) {
 	for i := 0; i < n; i++ {
 		q := r.Sub(i)
 		if i%5 == 4 {
+			if (i/5)%4 == 3 && q.P(0.5) {
+				// a cycle through a file whose written import path collides with another file's
+				emit(run.MkCase(fmt.Sprintf("c%07d", i), "cycle", c14In{Set: gen.ImportCollision(q, true)}))
+				continue
+			}
 			emit(run.MkCase(fmt.Sprintf("c%07d", i), "cycle", c14In{Set: gen.ImportCycle(q, 1+(i/5)%4)}))
+			continue
+		}
+		if i%5 == 2 {
+			// the same written import path in files of different directories
+			emit(run.MkCase(fmt.Sprintf("c%07d", i), "inline", c14In{Set: gen.ImportCollision(q, false)}))
+			continue
+		}
+		if i%50 == 7 {
+			emit(run.MkCase(fmt.Sprintf("c%07d", i), "inline", c14In{Set: gen.ImportVarsBlockString(q)}))
 			continue
 		}
 		emit(run.MkCase(fmt.Sprintf("c%07d", i), "inline", c14In{Set: gen.ImportProgram(q, tier == "thorough" && q.P(0.5))}))
@@ -110,8 +124,9 @@ func c14HasGlob(stmts []*gen.LStmt) bool {
 }
 
 type c14Inliner struct {
-	set  *gen.ImportSet
-	info c14Info
+	set     *gen.ImportSet
+	info    c14Info
+	written map[string]string // written import path -> first resolved target
 }
 
 func (x *c14Inliner) file(p string, depth int) []*gen.LStmt {
@@ -143,6 +158,14 @@ func (x *c14Inliner) stmts(in []*gen.LStmt, file string, depth int) []*gen.LStmt
 		}
 		x.info.inlined++
 		x.info.forms[s.Tag]++
+		if x.written == nil {
+			x.written = map[string]string{}
+		}
+		if first, ok := x.written[s.Imp.Path]; ok && first != target {
+			x.info.forms["same-written-path-denotes-different-files"]++
+		} else if !ok {
+			x.written[s.Imp.Path] = target
+		}
 		if c14HasGlob(x.set.Files[target]) {
 			x.info.forms["imported-file-has-triple-glob"]++
 			if len(s.Imp.Key) > 0 {
